@@ -2324,7 +2324,9 @@ class Client:
                         MQTT_LOG_DEBUG, "Connection failed, retrying")
                     # reconnect() left the state at CONNECTING: stay in this first-connection
                     # loop, otherwise the main loop below waits a second time before retrying
-                    self._state = _ConnectionState.MQTT_CS_CONNECT_ASYNC
+                    # (but keep a disconnect() made in on_connect_fail)
+                    if self._state == _ConnectionState.MQTT_CS_CONNECTING:
+                        self._state = _ConnectionState.MQTT_CS_CONNECT_ASYNC
                     self._reconnect_wait()
             else:
                 break
